@@ -466,6 +466,9 @@ func ruleR12(c *Ctx) *RuleResult {
 					bad = append(bad, fmt.Sprintf("the key-present path stores key=%v value=%v of the existing entry (both are replaced by a Put)", k, v))
 				}
 			}
+			if pf.kind != "cmp" && len(g.Effects) == 0 {
+				bad = append(bad, "the key-present path stores nothing: the value of the most recent Put is lost")
+			}
 			// a boolean result means "a new entry was linked / the height changed": it must be false here
 			if g.Exit.Op == "return" && len(g.Exit.Args) == 1 {
 				if b, isBool := g.Exit.Args[0].constBool(); !isBool || b {
